@@ -375,6 +375,14 @@ class Models:
            "BlobHash as ToString::to_string", "str as ToString::to_string"],
           lambda ex, st, fr, c, a, d, r: VOpaque("fmt"))
         self.prefix_table.append((re.compile(r" as AsDynError::as_dyn_error$"), lambda ex, st, fr, c, a, d, r: VOpaque("dynerr")))
+        # generic Option<scalar> comparisons (refactors like `a != b` on Options, `highest.max(Some(v))`)
+        self.prefix_table.append((re.compile(r"^&*Option as PartialEq::eq$"), lambda ex, st, fr, c, a, d, r: m_opt_eq(ex, st, a, False)))
+        self.prefix_table.append((re.compile(r"^&*Option as PartialEq::ne$"), lambda ex, st, fr, c, a, d, r: m_opt_eq(ex, st, a, True)))
+        for _op in ("lt", "le", "gt", "ge"):
+            self.prefix_table.append((re.compile(r"^&*Option as PartialOrd::%s$" % _op),
+                                      (lambda o: lambda ex, st, fr, c, a, d, r: m_opt_cmp(ex, st, a, o))(_op)))
+        self.prefix_table.append((re.compile(r"^Option as Ord::max$"), lambda ex, st, fr, c, a, d, r: m_opt_minmax(ex, st, a, True)))
+        self.prefix_table.append((re.compile(r"^Option as Ord::min$"), lambda ex, st, fr, c, a, d, r: m_opt_minmax(ex, st, a, False)))
         R(["panicking::assert_failed", "panicking::panic", "panicking::panic_fmt", "option::unwrap_failed",
            "result::unwrap_failed", "option::expect_failed"], m_panic)
 
@@ -385,6 +393,8 @@ class Models:
         return None
 
     def ptr_metadata(self, ex, st, tgt):
+        if isinstance(tgt, VStruct) and tgt.name == "RawSlice":
+            return VInt(tgt.fields[0].t, "usize")
         if isinstance(tgt, VOpaque) and isinstance(tgt.data, tuple) and tgt.data and tgt.data[0] == "slice":
             return VInt(tgt.data[3], "usize")
         if isinstance(tgt, VOpaque):
@@ -473,6 +483,59 @@ def m_minmax(a, is_max):
     if isinstance(x, VInt) and isinstance(y, VInt):
         return VInt(z3.If(x.t >= y.t, x.t, y.t) if is_max else z3.If(x.t <= y.t, x.t, y.t), x.ty)
     raise Unsupported("min/max on non-integers")
+
+
+def _opt_parts(st, v):
+    """Option<scalar> -> (disc term, payload scalar value or None)"""
+    e = optval(st, v)
+    pl = e.payloads.get(1) or []
+    p = scalar(st, pl[0]) if pl else None
+    if p is not None and not isinstance(p, (VInt, VSym, VBool)):
+        raise Unsupported(f"comparison of Option<{type(p).__name__}>")
+    return e.disc, p
+
+
+def m_opt_eq(ex, st, a, negate):
+    """<Option<T> as PartialEq>::eq / ne for scalar T (integers, keys, hashes, references to them)"""
+    dx, px = _opt_parts(st, a[0])
+    dy, py = _opt_parts(st, a[1])
+    same = dx == dy
+    if px is not None and py is not None:
+        same = z3.And(same, z3.Implies(dx == 1, px.t == py.t))
+    return VBool(z3.Not(same) if negate else same)
+
+
+def m_opt_cmp(ex, st, a, op):
+    """<Option<T> as PartialOrd>::lt/le/gt/ge: None < Some(_), Some by payload"""
+    dx, px = _opt_parts(st, a[0])
+    dy, py = _opt_parts(st, a[1])
+    if (px is not None and not isinstance(px, VInt)) or (py is not None and not isinstance(py, VInt)):
+        raise Unsupported("ordering of Option<non-integer>")
+    x = px.t if px is not None else z3.IntVal(0)
+    y = py.t if py is not None else z3.IntVal(0)
+    lt = z3.Or(dx < dy, z3.And(dx == 1, dy == 1, x < y))
+    eq = z3.And(dx == dy, z3.Implies(dx == 1, x == y))
+    t = {"lt": lt, "le": z3.Or(lt, eq), "gt": z3.Not(z3.Or(lt, eq)), "ge": z3.Not(lt)}[op]
+    return VBool(t)
+
+
+def m_opt_minmax(ex, st, a, is_max):
+    """<Option<T> as Ord>::max / min for integer T (arguments by value)"""
+    dx, px = _opt_parts(st, a[0])
+    dy, py = _opt_parts(st, a[1])
+    if (px is not None and not isinstance(px, VInt)) or (py is not None and not isinstance(py, VInt)):
+        raise Unsupported("min/max of Option<non-integer>")
+    ty = (px or py).ty if (px or py) is not None else "u64"
+    x = px.t if px is not None else z3.IntVal(0)
+    y = py.t if py is not None else z3.IntVal(0)
+    both = z3.And(dx == 1, dy == 1)
+    if is_max:
+        disc = z3.If(z3.Or(dx == 1, dy == 1), 1, 0)
+        val = z3.If(both, z3.If(x >= y, x, y), z3.If(dx == 1, x, y))
+    else:
+        disc = z3.If(both, 1, 0)
+        val = z3.If(x <= y, x, y)
+    return sym_option(disc == 1, VInt(val, ty))
 
 
 def m_nonzero_new(ex, st, fr, c, a, d, r):
